@@ -35,6 +35,33 @@ CHECKS = {
  "C15": ("random generation of inputs x cursor lists; metamorphic (with/without cursors) + position oracle via token correspondence",
          "Exploration: arbitrary inputs, seeds, 65 535-byte boundary lines and grammar-derived programs x configurations x cursor lists (token starts/interiors/ends, blanks, end, past the end).",
          "Clause 3 is asserted only when input and output scan to the same token kinds; nothing is asserted inside blanks beyond bounds."),
+ "C07": ("grammar-based generation with inserted verbatim regions / asm bodies; byte-equality oracle through the non-blank position map",
+         "Exploration: programs with 1-2 verbatim regions at arbitrary token gaps (many off/on spellings, open regions, look-alike comments that must not toggle) and asm bodies with irregular spacing, wild layouts x configurations; every region and asm body must be byte-identical in the output and code outside must still be formatted.",
+         "Regions are located on the input with the harness's own recogniser; relies on C01's equality (checked first) for the position map."),
+ "C09": ("grammar-based + arbitrary generation; metamorphic relations between lf/crlf configurations and LF/CRLF/mixed renderings; validity predicate on emitted line breaks",
+         "Exploration: (a) every emitted line break is the configured one, (b) format_crlf == format_lf with terminators substituted, (c) CRLF / mixed input renderings give the LF rendering's output when no line-spanning verbatim token is present.",
+         "x_CRLF / x_mixed derived by substitution of every line break of the LF rendering."),
+ "C10": ("grammar-based generation; metamorphic relation between tabs/spaces and continuation_indents 0/1/k renderings",
+         "Exploration at unconstrained width: levels and continuations are read off the tab renderings with continuation_indents 0 and 1; the k rendering and the spaces rendering must be exactly levels/continuations times the unit (with the statement's saturation at 255), identical text after the indentation.",
+         "Lines inside multi-line comments are verbatim and only compared for equality."),
+ "C11": ("grammar-based generation (ASCII-only); metamorphic relations between two wrap_column values",
+         "Exploration: pairs W1 < W2; identity when the wide result fits the narrow column, line-count monotonicity, fit monotonicity.",
+         "Two known findings (overflow regime; heuristic search on postfix chains) are excluded by signature and counted."),
+ "C12": ("generated multi-line literals in generated positions; value round-trip with an own literal parser",
+         "Exploration: literal shapes (quote runs, endings, indentation kinds, blank/short/over-indented lines, invalid and ambiguous variants) x positions x layouts x configurations; value, terminators and indentation clauses per literal.",
+         "Ambiguous whitespace-only lines: only value preservation of regular lines is asserted."),
+ "C16": ("generated file-system scenarios run through the real binary; differential between modes and against the library model",
+         "Exploration: contents (generated programs, arbitrary text, large flat files), BOM, siblings, decoys, undecodable and missing files x path forms x modes x configurations; exact byte, exit-status and mtime oracles.",
+         "UTF-8 only here (C17 covers encodings)."),
+ "C17": ("generated texts per encoding run through the real binary; round-trip against independent encoders",
+         "Exploration: 45 encoding labels x BOMs x representable texts x file/stdin; bytes written == BOM + encode(format(decode)); malformed input rejected and untouched.",
+         "UTF-8/16 encoders hand-written; legacy encodings use encoding_rs as the reference encoder."),
+ "C18": ("generated batches run through the real binary under sampled schedules (threads, order, seeded jitter hook); differential batch vs alone",
+         "Exploration: multisets of files x thread counts x order x jitter x failing subsets x files/stdout mode; every file equals its formatted-alone result, failing files untouched, exit status iff failure, stdout records complete.",
+         "Schedules are sampled, not enumerated."),
+ "C19": ("generated configuration specifications (file depth, decoys, --config-file, -C splits, invalid variants) run through the real binary; differential against the canonical all -C specification and a precedence model",
+         "Exploration: nearest-file discovery through up to 6 ancestor levels with decoys, explicit files, repeated -C, quoted/unquoted values, invalid specifications; output must be byte-identical to the canonical specification of the modelled effective configuration; invalid ones rejected before any write.",
+         "An ill-typed file value overridden by -C is not asserted (not stated)."),
 }
 
 NOT_YET = {}
